@@ -45,6 +45,7 @@ class PoolScenario(Scenario):
     boxes = ["dict", "frame", "rec"]
     factors_odd = 0.15
     fill_reloaded_too = False
+    inf_row_weights = 0.0
     odd_row_weights = 0.0  # share of negative / NaN entries in the weight arrays of fill.numpy (fill ignores such weights)
     spec_opts = {}
     record_opts = {"no_none": True, "numeric_cuts": False}
@@ -98,6 +99,11 @@ class PoolScenario(Scenario):
             st.update(obj=h, rows=rows, weights=wform, box=s.pick(self.boxes))
             if wform == "array" and s.chance(0.12):
                 st["row_weights"] = [s.pick(specmod.NEAR_ONE_WEIGHTS) for _ in rows]
+            elif wform == "array" and self.inf_row_weights and s.chance(self.inf_row_weights):
+                # one row of infinite weight among ordinary ones
+                st["row_weights"] = [s.pick(specmod.POS_WEIGHTS) for _ in rows]
+                if rows:
+                    st["row_weights"][s.randrange(len(rows))] = "inf"
             elif wform == "array":
                 st["row_weights"] = [specmod.enc_float(s.pick(specmod.ODD_WEIGHTS)) if s.chance(self.odd_row_weights) else s.pick(specmod.POS_WEIGHTS + [0.0, 0.0])
                                      for _ in rows]
